@@ -80,8 +80,7 @@ func vfC12GenOp(concreteKeys bool) vfC12Op {
 	}
 	if op.kind == 2 {
 		// accounts: the plain account, the account of contract 0, (accN = 3:) the account of contract 1
-		sel := vf.Choice("acc", vf.Param("accN", 2))
-		op.who = []int{2, 0, 1}[sel]
+		op.who = vfC12Acc("acc")
 		op.nonce = vf.U64("nonce")
 		op.bal = vf.Bytes("bal", 2)
 		return op
@@ -94,6 +93,29 @@ func vfC12GenOp(concreteKeys bool) vfC12Op {
 		op.stage = vf.Choice("stage", 2) == 1
 	}
 	return op
+}
+
+// vfC12Acc chooses the account of a PutState: the plain account, (accN >= 2:) the account of contract 0,
+// (accN = 3:) the account of contract 1.
+func vfC12Acc(name string) int {
+	n := vf.Param("accN", 1)
+	if n <= 1 {
+		return 2
+	}
+	return []int{2, 0, 1}[vf.Choice(name, n)]
+}
+
+// snapshot is the real BlockState.Snapshot(). snapPerm = 0: storageCache.Snapshot iterates over the staged storages
+// in one order only (that its result does not depend on the order is decided by C12.c.cache for every order); the
+// iteration of Rollback is always explored in every order.
+func (w *vfC12World) snapshot() BlockSnapshot {
+	if vf.Param("snapPerm", 1) == 0 {
+		vf.NoMapPerm(true)
+		s := w.bs.Snapshot()
+		vf.NoMapPerm(false)
+		return s
+	}
+	return w.bs.Snapshot()
 }
 
 func (w *vfC12World) open(c int) *statedb.ContractState {
@@ -248,7 +270,7 @@ func (w *vfC12World) pre(shape int, concreteKeys bool) []vfC12Op {
 		ops = append(ops, set(0), vfC12Op{kind: 1, who: 0, key: vfC12Key(concreteKeys), stage: true})
 	}
 	if vf.Choice("preAcc", 2) == 1 {
-		ops = append(ops, vfC12Op{kind: 2, who: []int{2, 0}[vf.Choice("preAccWho", 2)], nonce: vf.U64("nonce"), bal: vf.Bytes("bal", 2)})
+		ops = append(ops, vfC12Op{kind: 2, who: vfC12Acc("preAccWho"), nonce: vf.U64("nonce"), bal: vf.Bytes("bal", 2)})
 	}
 	for _, op := range ops {
 		w.apply(op)
@@ -292,7 +314,7 @@ func vfC12cFlat(shape int) {
 	w := vfC12NewWorld(vf.Bytes("q", 1))
 	w.pre(shape, false)
 	o := w.observe(nil)
-	snap := w.bs.Snapshot()
+	snap := w.snapshot()
 	_, put := w.run("n1", 1, vf.Param("maxOps", 2), false)
 	err := w.bs.Rollback(snap)
 	vf.Reach("C12.c")
@@ -316,10 +338,10 @@ func vfC12cNested(shape int) {
 	w := vfC12NewWorld(vf.Bytes("q", 1))
 	w.pre(shape, false)
 	oOuter := w.observe(nil)
-	sOuter := w.bs.Snapshot()
+	sOuter := w.snapshot()
 	_, put1 := w.run("n1", 1, vf.Param("maxOuter", 1), false)
 	oInner := w.observe(nil)
-	sInner := w.bs.Snapshot()
+	sInner := w.snapshot()
 	_, put2 := w.run("n2", 1, vf.Param("maxInner", 1), false)
 	err := w.bs.Rollback(sInner)
 	vf.Reach("C12.c.nested")
@@ -343,3 +365,60 @@ func vfC12cNested(shape int) {
 func VF_C12_c_nested0() { vfC12cNested(0) }
 func VF_C12_c_nested1() { vfC12cNested(1) }
 func VF_C12_c_nested2() { vfC12cNested(2) }
+
+// C12.c commit: what Update()/Commit() would persist after a revert does not contain reverted writes. Two worlds: the
+// subject (pre-state, Snapshot, operations, Rollback, optionally one more operation) and a reference in which the
+// reverted operations never happened (same pre-state, same later operation, same data). In both the storage half of
+// the real Update() runs (bufferedStorage.update: export of the staged buffer + real trie update) and the storage
+// half of the real Commit() (bufferedStorage.stage into a bulk of the store): storage roots, dirty flags and the
+// data written to the store must be the same. Storage keys are taken from two concrete keys here (trie paths come
+// from the key digests); values, nonces, balances stay symbolic.
+func vfC12cCommit(shape int) {
+	w := vfC12NewWorld([]byte{'a'})
+	ref := vfC12NewWorld([]byte{'a'})
+	for _, op := range w.pre(shape, true) {
+		ref.apply(op)
+	}
+	snap := w.snapshot()
+	_, put := w.run("n1", 1, vf.Param("maxOps", 1), true)
+	err := w.bs.Rollback(snap)
+	vf.Assert(err == nil, "C12.c")
+	if vf.Param("post", 0) != 0 && vf.Choice("post", 2) == 1 {
+		op := vfC12GenOp(true)
+		w.apply(op)
+		ref.apply(op)
+	}
+	// the iteration orders inside Update/Commit (storages, buffer indexes) are the subject of C02.a
+	vf.NoMapPerm(true)
+	vf.Reach("C12.c.commit")
+	if !put {
+		vf.Reach("C12.c.commit.storageonly")
+	}
+	for c := 0; c < vfC12Contracts; c++ {
+		r1, d1, e1 := statedb.VFC12UpdateStorage(w.bs.StateDB, w.aid[c])
+		r2, d2, e2 := statedb.VFC12UpdateStorage(ref.bs.StateDB, ref.aid[c])
+		vf.Assert(e1 == nil, "C12.c.commit")
+		vf.Assert(e2 == nil, "C12.c.commit")
+		vf.Assert(vfC12SameBytes(r1, r2), "C12.c.commit.storageroot")
+		vf.Assert(d1 == d2, "C12.c.commit.storageroot")
+	}
+	vf.Assert(statedb.VFC12StageStorages(w.bs.StateDB) == nil, "C12.c.commit")
+	vf.Assert(statedb.VFC12StageStorages(ref.bs.StateDB) == nil, "C12.c.commit")
+	// the same set of (key, value) pairs reaches the store
+	sub := func(a, b *vf.KV) {
+		for _, x := range a.Writes {
+			found := false
+			for _, y := range b.Writes {
+				found = vf.Or(found, vf.And(x.Del == y.Del, vf.And(bytes.Equal(x.Key, y.Key), bytes.Equal(x.Value, y.Value))))
+			}
+			vf.Assert(found, "C12.c.commit.store")
+		}
+	}
+	sub(w.kv, ref.kv)
+	sub(ref.kv, w.kv)
+	vf.Observe("writes", len(w.kv.Writes))
+}
+
+func VF_C12_c_commit0() { vfC12cCommit(0) }
+func VF_C12_c_commit1() { vfC12cCommit(1) }
+func VF_C12_c_commit2() { vfC12cCommit(2) }
